@@ -107,8 +107,8 @@ class EqualConstant(Logic):
         w = a.getWidth()
         
         if (w == 1):
-            # very simple case
-            if (v == 0):
+            # very simple case (the constant is compared modulo 2**w, as in the general case)
+            if ((v & 1) == 0):
                 Not(self, 'buf', a, r)
             else:
                 Buf(self, 'not', a, r)
